@@ -230,6 +230,8 @@ class RecipeReplay:
         c, recipe = ev["call"], ctx["recipe"]
         self.ran("C16")
         key = {"op": c["call"], "cls": ev["cls"], "after_bake": baked_before is not None}
+        if c["call"] == "bake":
+            key["slice_fill"] = any(h["call"] == "fill_to" and h.get("r") not in ("-", "plate", "all") for h in ev["history"])
         call_txt = json.dumps(c)[:200]
         want = ev["res"]
         if want == "ok":
@@ -651,7 +653,8 @@ def main(argv):
     if sim:
         info = tlcrun.run_tlc(mod, cfg, workers=1, simulate=f"num={sim[0]}", depth=int(sim[1]), seed=int(sim[2]), tag=tag)
     else:
-        info = tlcrun.run_tlc(mod, cfg, workers=1, tag=tag)
+        # (deep program instances can leave TLC's 32-bit rationals in the middle of the last level: that truncates the level)
+        info = tlcrun.run_tlc(mod, cfg, workers=1, tag=tag, tolerate_overflow=maxcalls >= 4)
     it = tlcrun.emitted(info["out"])
     first, second = json.loads(next(it)), json.loads(next(it))
     config = first.get("config") or second.get("config")
@@ -661,8 +664,8 @@ def main(argv):
     t1 = time.time()
     rp.run((json.loads(s) for s in it), instances.RECIPE_INSTANCES[instance]["auto_uses"])
     res = {"instance": instance, "maxcalls": maxcalls, "shard": shard, "nshards": nshards, "instantiation": inst.name, "simulate": sim,
-           "tlc": {k: info[k] for k in ("generated", "distinct", "depth", "wall", "cmd")},
-           "counts": rp.counts, "evaluated": rp.evaluated,
+           "tlc": dict({k: info[k] for k in ("generated", "distinct", "depth", "wall", "cmd")}, truncated=info.get("truncated")),
+           "counts": dict(rp.counts, tlc_truncated_by_32bit_overflow=1 if info.get("truncated") else 0), "evaluated": rp.evaluated,
            "by_class": {"|".join(map(str, k)): n for k, n in rp.by_class.items()},
            "distinct_states": info["distinct"], "violations": rp.viol,
            "violation_counts": [{"property": p, "class_key": json.loads(fk), "count": n} for (p, fk), n in rp.count.items()],
